@@ -229,8 +229,8 @@ fn enc_elem(l: &mut Line, e: Element) {
     for k in kids { enc_elem(l, k); }
 }
 
-fn emit_urdf(fam: &str, xml: &str, names: Option<[&str; 6]>, expected: Option<&URDFParameters>) {
-    let mut l = Line::new("C20", fam, "urdf");
+fn emit_urdf(prop: &str, fam: &str, xml: &str, names: Option<[&str; 6]>, expected: Option<&URDFParameters>) {
+    let mut l = Line::new(prop, fam, "urdf");
     match sxd_document::parser::parse(xml) {
         Err(_) => { l.n(0); }
         Ok(pkg) => {
@@ -297,9 +297,15 @@ fn joint_xml(r: &mut Rng, u: &URDFParameters, lay: &Layout, names: &[String; 6])
         inner.push_str(&format!("<origin xyz=\"{}\" rpy=\"0 0 0\"/>", origins[k]));
         if !(s == 1 && r.chance(0.3)) { inner.push_str(&format!("<axis xyz=\"{}\"/>", axis)); }
         if u.from[k] != 0.0 || u.to[k] != 0.0 {
-            let as_deg = (u.from[k].to_degrees().round() - u.from[k].to_degrees()).abs() < 1e-9 && (u.to[k].to_degrees().round() - u.to[k].to_degrees()).abs() < 1e-9;
-            if as_deg && r.chance(0.7) {
-                inner.push_str(&format!("<limit lower=\"${{radians({})}}\" upper=\"${{radians({})}}\" effort=\"0\" velocity=\"1.0\"/>", u.from[k].to_degrees().round() as i64, u.to[k].to_degrees().round() as i64));
+            // whole or tenth degrees that reproduce the limit exactly are written in the xacro form ${radians(..)}
+            let deg_text = |x: f64| -> Option<String> {
+                let t = (x.to_degrees() * 10.0).round();
+                if (t / 10.0).to_radians() != x { return None; }
+                Some(if t % 10.0 == 0.0 { format!("{}", (t / 10.0) as i64) } else { format!("{:.1}", t / 10.0) })
+            };
+            let (dl, du) = (deg_text(u.from[k]), deg_text(u.to[k]));
+            if dl.is_some() && du.is_some() && r.chance(0.7) {
+                inner.push_str(&format!("<limit lower=\"${{radians({})}}\" upper=\"${{radians({})}}\" effort=\"0\" velocity=\"1.0\"/>", dl.unwrap(), du.unwrap()));
             } else {
                 inner.push_str(&format!("<limit lower=\"{}\" upper=\"{}\" effort=\"0\" velocity=\"1.0\"/>", num(r, u.from[k]), num(r, u.to[k])));
             }
@@ -333,31 +339,54 @@ pub fn c20(seed: u64, n: usize) {
         match catch(AssertUnwindSafe(|| verif_preprocess_joint_name(&s))) { Some(o) => { l.s(&hexs(&o)); } None => { l.s("panic"); } }
         l.emit();
     }
+    urdf_cases("C20", &mut r, n);
+}
+
+/// robot descriptions generated from OPW parameters (layouts, signs, limits in radians / whole / fractional degrees,
+/// order, nesting, names, second copy) and error cases derived from them
+pub fn urdf_cases(prop: &str, r: &mut Rng, n: usize) {
     for i in 0..n {
-        let (_, p) = gen_params(&mut r);
+        let (_, p) = gen_params(r);
         let mut u = URDFParameters { a1: p.a1, a2: p.a2, b: 0.0, c1: p.c1, c2: p.c2, c3: p.c3, c4: p.c4, sign_corrections: [1; 6], from: [0.0; 6], to: [0.0; 6], dof: 6 };
         let lay = Layout { c2_on_x: r.chance(0.4), b_on_j3: r.chance(0.4), c3_on_j4: r.chance(0.3), c3_on_x: r.chance(0.5), c4_on_x: r.chance(0.5) };
         if lay.b_on_j3 { u.b = if p.b != 0.0 { p.b } else { r.range(0.01, 0.2) }; }
         // side conditions of the layouts (DESIGN §7 C20): a lone non-zero coordinate is read as the main length
         if u.c2 == 0.0 { u.c2 = 0.3; }
+        // equal neighbouring components of one origin (b next to c2) are still two values
+        if lay.b_on_j3 && r.chance(0.15) { u.b = u.c2; }
         if lay.c3_on_j4 { if u.a2 == 0.0 { u.a2 = -0.05; } if u.c3 == 0.0 { u.c3 = 0.4; } }
         for k in 0..6 {
             u.sign_corrections[k] = if r.chance(0.6) { 1 } else { -1 };
             match r.below(4) {
                 0 => {}
                 1 => { u.from[k] = -(r.below(180) as f64 + 1.0).to_radians(); u.to[k] = (r.below(180) as f64 + 1.0).to_radians(); }
+                2 => { u.from[k] = -((r.below(1800) + 1) as f64 / 10.0).to_radians(); u.to[k] = ((r.below(1800) + 1) as f64 / 10.0).to_radians(); }
                 _ => { u.from[k] = r.range(-PI, -0.1); u.to[k] = r.range(0.1, PI); }
             }
         }
         let explicit = i % 5 == 4;
         let names: [String; 6] = if explicit { std::array::from_fn(|k| format!("{}_{}", *r.pick(&["ax", "shoulder", "wrist_x", "q"]), k + 1)) }
-                                 else { std::array::from_fn(|k| decorate(&mut r, k)) };
-        let mut joints = joint_xml(&mut r, &u, &lay, &names);
+                                 else { std::array::from_fn(|k| decorate(r, k)) };
+        let mut joints = joint_xml(r, &u, &lay, &names);
         // declaration order, nesting, extra elements, identical second copy
         let mut fam = format!("layout{}{}{}", if lay.c2_on_x { "/c2x" } else { "/c2z" }, if lay.b_on_j3 { "/b" } else { "" }, if lay.c3_on_j4 { "/c3@j4" } else { "/c3@j5" });
         for k in (1..joints.len()).rev() { let j = r.below(k + 1); joints.swap(k, j); }
+        // a chain written as nested elements: some joints sit inside the element of the joint declared before them
+        let mut placed = joints.clone();
+        if r.chance(0.2) && joints.iter().all(|j| j.ends_with("</joint>")) {
+            let mut chained: Vec<String> = vec![];
+            for j in joints.iter().cloned() {
+                if !chained.is_empty() && r.chance(0.5) {
+                    let host = chained.pop().unwrap();
+                    let cut = host.rfind("</joint>").unwrap();
+                    chained.push(format!("{}{}{}", &host[..cut], j, &host[cut..]));
+                } else { chained.push(j); }
+            }
+            placed = chained;
+            fam.push_str("/joint-in-joint");
+        }
         let mut body = String::new();
-        for (k, j) in joints.iter().enumerate() {
+        for (k, j) in placed.iter().enumerate() {
             if r.chance(0.3) { body.push_str(&format!("<link name=\"l{}\"><visual><origin xyz=\"1 2 3\"/></visual></link>", k)); }
             if r.chance(0.25) { body.push_str(&format!("<xacro:macro name=\"m{}\"><group>{}</group></xacro:macro>", k, j)); fam.push_str("/nested"); }
             else { body.push_str(j); }
@@ -366,7 +395,7 @@ pub fn c20(seed: u64, n: usize) {
         let xml = format!("<?xml version=\"1.0\"?><robot name=\"r\" xmlns:xacro=\"http://www.ros.org/wiki/xacro\">{}</robot>", body);
         let nref: [&str; 6] = std::array::from_fn(|k| names[k].as_str());
         if explicit { fam.push_str("/explicit-names"); }
-        emit_urdf(&fam, &xml, if explicit { Some(nref) } else { None }, Some(&u));
+        emit_urdf(prop, &fam, &xml, if explicit { Some(nref) } else { None }, Some(&u));
         // error cases derived from the same description
         if i % 4 == 0 {
             let which = r.below(6);
@@ -388,7 +417,7 @@ pub fn c20(seed: u64, n: usize) {
                 }
                 _ => ("two-values", xml.replacen("<origin xyz=\"", "<origin xyz=\"1 ", 1)),
             };
-            emit_urdf(&format!("error/{}", damaged.0), &damaged.1, if explicit { Some(nref) } else { None }, None);
+            emit_urdf(prop, &format!("error/{}", damaged.0), &damaged.1, if explicit { Some(nref) } else { None }, None);
         }
     }
 }
